@@ -30,8 +30,41 @@ def one(sid, tier):
         shutil.rmtree(root, ignore_errors=True)
 
 
+def one_twin(tid, tier):
+    d = os.path.join(V, "twins", tid)
+    root = tempfile.mkdtemp(prefix="twin-")
+    try:
+        shutil.copytree("/repo/py_ecc", root + "/py_ecc")
+        r = subprocess.run(["patch", "-p1", "-s", "-i", os.path.join(d, "patch.diff")], cwd=root, capture_output=True, text=True)
+        if r.returncode:
+            return tid, False, "patch does not apply: " + (r.stdout + r.stderr)[-200:]
+        os.makedirs(root + "/out")
+        env = dict(os.environ, VERIF_REPO=root, VERIF_OUT=root + "/out")
+        noisy = []
+        for i in range(1, 21):
+            p = f"C{i:02d}"
+            rr = subprocess.run([V + "/check", p, "--tier", tier], capture_output=True, text=True, env=env)
+            if rr.returncode != 0:
+                noisy.append(f"{p} rc={rr.returncode}")
+        return tid, not noisy, "; ".join(noisy)
+    finally:
+        shutil.rmtree(root, ignore_errors=True)
+
+
 if __name__ == "__main__":
     args = sys.argv[1:]
+    if "--twins" in args:
+        args.remove("--twins")
+        tier = "quick"
+        T = os.path.join(V, "twins")
+        ids = args or sorted(x for x in os.listdir(T) if os.path.isdir(os.path.join(T, x)))
+        bad = 0
+        with ThreadPoolExecutor(8) as ex:
+            for tid, ok, msg in ex.map(lambda s: one_twin(s, tier), ids):
+                print(("silent  " if ok else "ALARM   ") + tid + ("  " + msg if msg else ""))
+                bad += not ok
+        print(f"{len(ids)} behaviour-preserving twins, {bad} not silent")
+        sys.exit(1 if bad else 0)
     tier = "quick"
     if "--tier" in args:
         i = args.index("--tier"); tier = args[i + 1]; del args[i:i + 2]
